@@ -249,7 +249,9 @@ sts_atmost_via_source(Source *source, Sink *sink, const size_t n)
     const ssize_t rc = (source->kind == DATA_KIND_CHUNK)
         ? source->source.chunk(source->driver, buf, m)
         : source_get_chunk(source, buf, m);
-    return (rc < 0) ? rc : sink_put_chunk(sink, buf, rc);
+    /* A source may answer zero ("nothing for now"). There is nothing to
+     * forward then, and sink_put_chunk() refuses empty requests. */
+    return (rc <= 0) ? rc : sink_put_chunk(sink, buf, rc);
 }
 
 ssize_t
